@@ -83,8 +83,15 @@ fn replace_vec(v: &mut Vec<BedEntry>, n: Vec<BedEntry>) -> (r: Vec<BedEntry>)
 /// The coverage sweep (closure `add_interval_to_summary`) is verified in unit bb_sweep.  Here its
 /// definition is cut out and the call goes to this shim: no contract at all, i.e. `overlap` and
 /// `summary` are havocked.  Frame assumption (by its signature): it touches only those two.
+/// What it does to its two arguments is a deterministic function of what it is given (uninterpreted here: unit bb_sweep
+/// owns the content) -- so the CALL is pinned: which start, which end, which look-ahead.
+pub uninterp spec fn sweep_summary(s: Option<Summary>, o: Overlap, item_start: u32, item_end: u32, next_start: Option<u32>) -> Option<Summary>;
+pub uninterp spec fn sweep_overlap(s: Option<Summary>, o: Overlap, item_start: u32, item_end: u32, next_start: Option<u32>) -> Overlap;
 #[verifier::external_body]
 fn add_interval_to_summary(overlap: &mut Overlap, summary: &mut Option<Summary>, item_start: u32, item_end: u32, next_start_opt: Option<u32>)
+    ensures
+        *final(summary) == sweep_summary(*old(summary), *old(overlap), item_start, item_end, next_start_opt),
+        *final(overlap) == sweep_overlap(*old(summary), *old(overlap), item_start, item_end, next_start_opt),
 { unimplemented!() }
 
 // ---------------- specification vocabulary (from the property texts) ----------------
@@ -195,6 +202,7 @@ proof fn lemma_le_push(s: Seq<BedEntry>, x: BedEntry, b: u32)
 //@rule R1 min=1
 //@sub /format!\(.*?\)(?=\)\);)/ => err_msg() min=3
 //@sub /current_val\.rest\.contains\('\\0'\)/ => has_nul(&current_val.rest) min=0
+//@sub /(\w+)\.map\(\|(\w+)\| \2\.(\w+)\)/ => (match \1 { Some(\2) => Some(\2.\3), None => None }) min=0
 //@sub /IndexList<Value>/ => Overlap min=1
 //@sub /BBIDataProcessoringInputSectionChannel/ => SectionSink min=1
 //@sub /std::mem::replace\(/ => replace_vec( min=1
@@ -209,6 +217,11 @@ proof fn lemma_le_push(s: Seq<BedEntry>, x: BedEntry, b: u32)
             && *final(summary) == *old(summary) && *final(overlap) == *old(overlap),
         [[L: kept_once_in_order_unchanged]]
         r.is_ok() ==> accepted(*final(ftx), final(items)@) == accepted(*old(ftx), old(items)@).push(current_val),
+        // C06: the coverage sweep sees the entry's OWN extent (also where it reaches past the chromosome length: the
+        // writer accepts such entries and the readers return them whole) and the start of the next entry
+        [[L: sweep_gets_the_entrys_own_start_and_end_and_the_next_start_once]]
+        r.is_ok() ==> *final(summary) == sweep_summary(*old(summary), *old(overlap), current_val.start, current_val.end, match next_val { Some(v) => Some(v.start), None => None })
+            && *final(overlap) == sweep_overlap(*old(summary), *old(overlap), current_val.start, current_val.end, match next_val { Some(v) => Some(v.start), None => None }),
         [[L: emit_exactly_when_full_or_last]]
         r.is_ok() ==> ({
             let all = old(items)@.push(current_val);
